@@ -13,8 +13,8 @@ ENGINE = "e2-history-bfs"
 ISOLATE_PARTITIONS = True  # every partition starts from cold parser caches
 
 COND = ["[1] U ([2] O [3])", "[4P0..1][901] X [UB3]", "[1000] O ([0] U [2500])", "[12] U [34P]"]
-# malformed strings that become a string of COND when whitespace is removed (a blank INSIDE a key)
-MALFORMED = ["[1 2] U [34P]", "[12] U [34 P]"]
+# malformed strings that become a string of COND when whitespace is removed (a blank INSIDE a key) or when upper-cased
+MALFORMED = ["[1 2] U [34P]", "[12] U [34 P]", "[12] u [34p]"]  # the last one: the lower-case TWIN of COND[3] (package marker p)
 AHB = ["Muss [1] U [2] Soll [3]"]
 # runs of one operator (their inner grouping is unspecified, but every parse of the same text groups them the same way); only
 # observed by the invariant (no operations of its own): parsed from scratch, with the execution's unique padding, in every state
@@ -24,7 +24,7 @@ RC = {"1": "F", "2": "U", "3": "?", "492": "F", "493": "U"}
 FC = {"901": (True, None), "932": (True, None), "934": (False, "msg 934")}
 EDIT_KINDS = ["replace_child", "delete_child", "append_child", "clear_children", "rename_node", "set_token_value"]
 FLOOD_N = 1100
-NONEDIT_OPS = [["Pc", 0], ["Pc", 1], ["Pc", 2], ["Pc", 3], ["Pm", 0], ["Pm", 1], ["Pa", 0], ["R", 0], ["R", 1], ["Ev", 0], ["Flood"]]
+NONEDIT_OPS = [["Pc", 0], ["Pc", 1], ["Pc", 2], ["Pc", 3], ["Pm", 0], ["Pm", 1], ["Pm", 2], ["Pa", 0], ["R", 0], ["R", 1], ["Ev", 0], ["Flood"]]
 BOUNDS = {"quick": {"depth": 3, "max_edits": 1, "flood_depth": 2, "spread": 4},
           "thorough": {"depth": 4, "max_edits": 2, "flood_depth": 4, "spread": 48}}
 
